@@ -5,6 +5,69 @@ Helper lemmas for C19: the filter loop is `List.filter`, the auto-enabling loops
 import Scalibr.Spec.Registry
 namespace Scalibr.Registry
 
+/-- the statement of `requiredOK` in terms of the model's `ExtractorFromName` (what the auto-enabling loop consults) -/
+def requiredOKModel (fsT stT : Table) (dreq : Caps) (e : String) : Prop :=
+  ((∃ x, fromName fsT e = .ok x) ∨ (∃ x, fromName stT e = .ok x)) ∧
+  (∀ x, fromName fsT e = .ok x → ∀ caps, satisfied dreq caps = true → satisfied x.req caps = true) ∧
+  (∀ x, fromName stT e = .ok x → ∀ caps, satisfied dreq caps = true → satisfied x.req caps = true)
+
+theorem lookup_mem (t : Table) (n : String) (v : List Plugin) (h : t.lookup n = some v) : (n, v) ∈ t := by
+  induction t with
+  | nil => simp at h
+  | cons kv rest ih =>
+    obtain ⟨k, w⟩ := kv
+    by_cases hk : n = k
+    · subst hk; simp at h; subst h; simp
+    · have : (n == k) = false := by simpa using hk
+      rw [List.lookup_cons, this] at h
+      exact List.mem_cons_of_mem _ (ih h)
+
+theorem mem_lookup (t : Table) (n : String) (v : List Plugin) (hk : KeysNodup t) (h : (n, v) ∈ t) : t.lookup n = some v := by
+  induction t with
+  | nil => cases h
+  | cons kv rest ih =>
+    obtain ⟨k, w⟩ := kv
+    unfold KeysNodup at hk
+    simp only [List.map_cons, List.nodup_cons] at hk
+    simp only [List.mem_cons, Prod.mk.injEq] at h
+    rcases h with ⟨rfl, rfl⟩ | h
+    · simp
+    · have hne : n ≠ k := by
+        intro e; subst e
+        exact hk.1 (List.mem_map.2 ⟨(n, v), h, rfl⟩)
+      have : (n == k) = false := by simpa using hne
+      rw [List.lookup_cons, this]
+      exact ih hk.2 h
+
+/-- the model's exact-name lookup only ever returns what the specification calls registered under that name … -/
+theorem fromName_ok_registered (t : Table) (n : String) (p : Plugin) (h : fromName t n = .ok p) : RegisteredAs t n p := by
+  unfold fromName at h
+  cases hl : t.lookup n with
+  | none => simp [hl] at h
+  | some inits =>
+    rw [hl] at h
+    match inits, h with
+    | [e], h =>
+      by_cases hn : e.name = n
+      · simp [hn] at h; subst h; exact ⟨lookup_mem t n _ hl, hn⟩
+      · simp [hn] at h
+
+/-- … and, keys being distinct, returns it -/
+theorem registered_fromName_ok (t : Table) (n : String) (p : Plugin) (hk : KeysNodup t) (h : RegisteredAs t n p) :
+    fromName t n = .ok p := by
+  unfold fromName
+  rw [mem_lookup t n [p] hk h.1]
+  simp [h.2]
+
+/-- the specification implies the statement the loop invariant needs -/
+theorem requiredOKModel_of_spec (fsT stT : Table) (dreq : Caps) (e : String) (hf : KeysNodup fsT) (hs : KeysNodup stT)
+    (h : requiredOK fsT stT dreq e) : requiredOKModel fsT stT dreq e := by
+  obtain ⟨hex, h1, h2⟩ := h
+  refine ⟨?_, fun x hx => h1 x (fromName_ok_registered _ _ _ hx), fun x hx => h2 x (fromName_ok_registered _ _ _ hx)⟩
+  rcases hex with ⟨x, hx⟩ | ⟨x, hx⟩
+  · exact Or.inl ⟨x, registered_fromName_ok _ _ _ hf hx⟩
+  · exact Or.inr ⟨x, registered_fromName_ok _ _ _ hs hx⟩
+
 theorem mem_allCaps (c : Caps) : c ∈ allCaps := by
   rcases c with ⟨o, n, d, r⟩
   cases o <;> cases n <;> cases d <;> cases r <;> decide
@@ -30,7 +93,7 @@ def Good (caps : Caps) (c : Cfg) : Prop :=
   (∀ p ∈ c.fs, satisfied p.req caps = true) ∧ (∀ p ∈ c.st, satisfied p.req caps = true)
 
 theorem enableOne_good (fsT stT : Table) (caps dreq : Caps) (c : Cfg) (e : String)
-    (hg : Good caps c) (hd : satisfied dreq caps = true) (hr : requiredOK fsT stT dreq e) :
+    (hg : Good caps c) (hd : satisfied dreq caps = true) (hr : requiredOKModel fsT stT dreq e) :
     ∃ c', enableOne fsT stT c e = .ok c' ∧ Good caps c' := by
   obtain ⟨hex, hfs, hst⟩ := hr
   unfold enableOne
@@ -74,7 +137,7 @@ theorem enableOne_good (fsT stT : Table) (caps dreq : Caps) (c : Cfg) (e : Strin
           · rw [hp]; exact hst y h2 caps hd
 
 theorem enableList_good (fsT stT : Table) (caps dreq : Caps) (es : List String) (c : Cfg)
-    (hg : Good caps c) (hd : satisfied dreq caps = true) (hr : ∀ e ∈ es, requiredOK fsT stT dreq e) :
+    (hg : Good caps c) (hd : satisfied dreq caps = true) (hr : ∀ e ∈ es, requiredOKModel fsT stT dreq e) :
     ∃ c', enableList fsT stT c es = .ok c' ∧ Good caps c' := by
   induction es generalizing c with
   | nil => exact ⟨c, rfl, hg⟩
@@ -85,7 +148,7 @@ theorem enableList_good (fsT stT : Table) (caps dreq : Caps) (es : List String) 
 
 theorem enableDets_good (fsT stT : Table) (caps : Caps) (ds : List Plugin) (c : Cfg)
     (hg : Good caps c) (hd : ∀ d ∈ ds, satisfied d.req caps = true)
-    (hr : ∀ d ∈ ds, ∀ e ∈ d.required, requiredOK fsT stT d.req e) :
+    (hr : ∀ d ∈ ds, ∀ e ∈ d.required, requiredOKModel fsT stT d.req e) :
     ∃ c', enableDets fsT stT c ds = .ok c' ∧ Good caps c' := by
   induction ds generalizing c with
   | nil => exact ⟨c, rfl, hg⟩
@@ -102,8 +165,8 @@ theorem validateAll_nil (ps : List Plugin) (caps : Caps) (h : ∀ p ∈ ps, sati
   simp [validate_eq_satisfied, h p hp]
 
 /-- the executable check decides the declarative statement -/
-theorem requiredOK_of_B (fsT stT : Table) (dreq : Caps) (e : String) (h : requiredOKB fsT stT dreq e = true) :
-    requiredOK fsT stT dreq e := by
+theorem requiredOKModel_of_B (fsT stT : Table) (dreq : Caps) (e : String) (h : requiredOKB fsT stT dreq e = true) :
+    requiredOKModel fsT stT dreq e := by
   unfold requiredOKB at h
   simp only [Bool.and_eq_true, Bool.or_eq_true] at h
   obtain ⟨⟨hex, h1⟩, h2⟩ := h
@@ -125,5 +188,14 @@ theorem requiredOK_of_B (fsT stT : Table) (dreq : Caps) (e : String) (h : requir
     simp only [List.all_eq_true] at h2
     have := h2 caps (mem_allCaps caps)
     simpa [hs] using this
+
+/-- the executable check decides the SPECIFICATION (tables with distinct keys) -/
+theorem requiredOK_of_B (fsT stT : Table) (dreq : Caps) (e : String) (hf : KeysNodup fsT) (hs : KeysNodup stT)
+    (h : requiredOKB fsT stT dreq e = true) : requiredOK fsT stT dreq e := by
+  obtain ⟨hex, h1, h2⟩ := requiredOKModel_of_B fsT stT dreq e h
+  refine ⟨?_, fun x hx => h1 x (registered_fromName_ok _ _ _ hf hx), fun x hx => h2 x (registered_fromName_ok _ _ _ hs hx)⟩
+  rcases hex with ⟨x, hx⟩ | ⟨x, hx⟩
+  · exact Or.inl ⟨x, fromName_ok_registered _ _ _ hx⟩
+  · exact Or.inr ⟨x, fromName_ok_registered _ _ _ hx⟩
 
 end Scalibr.Registry
